@@ -89,7 +89,7 @@ def eval (D : Dataset) (g : Graph) (σ : Row n) : Alg → List (Row n)
       (eval D g σ b).all (fun μ' => !(μ.compat μ') || !(isTrue (evalExpr D g σ (μ.merge μ') e))))
   | .filter e p _ _ => (eval D g σ p).filter (fun μ => isTrue (evalExpr D g σ μ e))
   | .union a b => eval D g σ a ++ eval D g σ b
-  | .minus a b _ => minusBag (eval D g σ a) (eval D g σ b)
+  | .minus a b _ _ => minusBag (eval D g σ a) (eval D g σ b)
   | .extend p v e _ =>
     (eval D g σ p).map fun μ =>
       match μ.get v with
@@ -234,8 +234,8 @@ def applyFilters (fs : List Expr) (G : Alg) : Alg :=
     is not hoisted): `fs` = P's own filters, `A2` = P without them. -/
 def mkLeftJoin (G : Alg) (fs : List Expr) (A2 : Alg) : Alg :=
   match andAll fs with
-  | some f => .leftJoin G A2 f none []
-  | none => .leftJoin G A2 (.const (.bool true)) none []
+  | some f => .leftJoin G A2 f none none
+  | none => .leftJoin G A2 (.const (.bool true)) none none
 
 mutual
 def trExpr : SExpr → Expr
@@ -254,7 +254,7 @@ def trElts : Elts → Alg → Alg
 def trElt : Elt → Alg → Alg
   | .tri tps, G => mkJoin G (.bgp tps)
   | .opt g, G => mkLeftJoin G (filtersOf g) (trElts g Alg.unit)
-  | .minus g, G => .minus G (applyFilters (filtersOf g) (trElts g Alg.unit)) []
+  | .minus g, G => .minus G (applyFilters (filtersOf g) (trElts g Alg.unit)) none none
   | .union gs, G => mkJoin G (trUnion gs)
   | .graph p g, G => mkJoin G (.graph p (applyFilters (filtersOf g) (trElts g Alg.unit)))
   | .values vars rows, G => mkJoin G (.values vars rows)
